@@ -368,3 +368,74 @@ def run(ck, prog):
     _run_pre_dimension(ck, prog)
     from sa import dimension
     dimension.run_rule(ck, prog, set(DIMENSION_FILES))
+
+
+# ------------------------------------------------------------------ the sweep's running totals are advanced uniformly
+_run_pre_uniform = run
+
+
+def uniform_accumulators(ck, prog):
+    """Bootstrap multiplicities are weights: wherever the threshold sweep of find_best_split advances a running total it adds
+    the same weighted term (count += w_i, sum += w_i * y_i) - also on the branches that skip a candidate. Sibling agreement:
+    all update sites of one accumulator inside the sweep add the same provenance term. A site that adds y_i where the
+    others add w_i * y_i makes leaf means wrong exactly when a skipped row was drawn more than once."""
+    from sa.prov import Resolver, render
+    rule = "E1-sibling"
+    for nm, path in (("regressor", "tree::decision_tree_regressor::DecisionTreeRegressor::<T>::find_best_split"),
+                     ("classifier", "tree::decision_tree_classifier::DecisionTreeClassifier::<T>::find_best_split")):
+        inst = f"{nm} find_best_split: every update of a running total adds the same weighted term"
+        b = prog.bodies.get(path)
+        if b is None:
+            ck.violation(rule, inst, path, "", expected="anchor exists", found="anchor vanished")
+            continue
+        res = Resolver(b)
+        groups = {}
+        for bb, t in b.calls():
+            f = t.get("f")
+            if f and f["path"].endswith("AddAssign::add_assign") and t["args"][0]["k"] in ("move", "copy"):
+                tgt = b.mutref_of.get(t["args"][0]["p"]["l"])
+                if tgt is not None and not b.is_arg(tgt):
+                    groups.setdefault(tgt, []).append((b.where(bb), res.operand(t["args"][1])))
+        for l, ds in b.defs.items():
+            if b.is_arg(l) or not b.local_name(l):
+                continue
+            for d in ds:
+                if d.kind == "assign" and d.data["r"]["k"] in ("bin", "use"):
+                    tm = res.from_def(d, 1, ())
+                    if tm[0] == "field" and tm[2] == "0":
+                        tm = tm[1]
+                    if tm[0] == "bin" and tm[1] in ("Add", "AddWithOverflow") and tm[2][0] in ("phi", "local") and tm[2][1] == l:
+                        groups.setdefault(l, []).append((b.where(d.bb, d.idx), tm[3]))
+                elif d.kind == "store":
+                    tm = res.rvalue(d.data["r"], 0, ())
+                    if tm[0] == "field" and tm[2] == "0":
+                        tm = tm[1]
+                    if tm[0] == "bin" and tm[1] in ("Add", "AddWithOverflow"):
+                        groups.setdefault(l, []).append((b.where(d.bb, d.idx), tm[3]))
+        n = 0
+        for l, sites in sorted(groups.items()):
+            if len(sites) < 2:
+                continue
+            n += 1
+            kinds = {}
+            for w, tm in sites:
+                kinds.setdefault(render(tm), []).append(w)
+            name = b.local_name(l) or f"_{l}"
+            if len(kinds) > 1:
+                major = max(kinds.items(), key=lambda kv: len(kv[1]))
+                odd = [(k, v) for k, v in kinds.items() if k != major[0]]
+                ck.violation(rule, inst, b.path, odd[0][1][0], ordinal=n,
+                             expected=f"all {len(sites)} updates of `{name}` add `{major[0][:70]}`",
+                             found=f"the update at {odd[0][1][0]} adds `{odd[0][0][:70]}`")
+            else:
+                ck.ok(rule, inst, b.path, sites[0][0], f"`{name}`: {len(sites)} update sites, all add `{list(kinds)[0][:70]}`")
+        if n == 0:
+            ck.note(f"{inst}: no accumulator with two or more update sites (sweep restructured): no instance")
+
+
+def run(ck, prog):
+    _run_pre_uniform(ck, prog)
+    uniform_accumulators(ck, prog)
+
+
+EXPLANATION += (' Weighted sweep: all update sites of one running total in find_best_split add the same weighted term (E1-sibling) - bootstrap multiplicities enter the skip branches as well.')
